@@ -685,6 +685,15 @@ def rule_introspect(ctx):
                 for f_ in v['fields']:
                     if f_['name'] == 'headers' and 'Header' in f_['ty'] and (item_attrs(f_, 'arg').get('long') == 'header' or item_attrs(f_, 'clap').get('long') == 'header'):
                         okw = True
+                        # each occurrence of the flag is one header, handed to from_str whole
+                        keys = {k for k in list(item_attrs(f_, 'arg')) + list(item_attrs(f_, 'clap')) if k != '__present__'}
+                        splitting = sorted(keys & {'value_delimiter', 'use_value_delimiter', 'require_value_delimiter', 'value_terminator', 'num_args',
+                                                   'value_parser', 'number_of_values', 'multiple_values', 'use_delimiter', 'require_delimiter'})
+                        if splitting:
+                            obs.append(bad('HEADER-GUARDS', 'cli/header-flag-split', 'the --header flag re-cuts / re-parses its value (%s) before Header::from_str sees it' % splitting, f_.get('loc', ''),
+                                           'a header whose value contains the delimiter is refused or sent as several headers'))
+                        else:
+                            obs.append(ok('HEADER-GUARDS', 'cli/header-flag-split', 'one occurrence of --header = one header string', f_.get('loc', '')))
         if okw:
             obs.append(ok('HEADER-GUARDS', 'cli/header-flag', '--header values are parsed through Header::from_str', ''))
         else:
